@@ -572,7 +572,7 @@ class C19(Check):
                 add("json_addr_bad " + (s[:i] + bytes([c]) + s[i + 1:]).hex(), "addr-text/one-char", costly=True)
                 add("json_addr_bad " + (s[:i] + rng.choice([b"0", b"O", b"I", b"l", b" ", b"\"", b"\\", b"\n", b"\xc3\xa9"]) +
                                         s[i + 1:]).hex(), "addr-text/foreign-char")
-            for m in (s[:-1], s[:-11], s[:11], s + b"1", s + s[:11], b" " + s, s + b" ", s.lower(), s[1:], b"", s + b"\x00",
+            for m in (s + b"\n", s + b"\r\n", s + b"\r", b"\n" + s, s + b"\t", s[:-1], s[:-11], s[:11], s + b"1", s + s[:11], b" " + s, s + b" ", s.lower(), s[1:], b"", s + b"\x00",
                       b"\"" + s + b"\"", s[:40] + b"\xff" + s[41:]):
                 add("json_addr_bad " + (m.hex() or "-"), "addr-text/length-or-foreign", costly=len(m) >= 95)
         # other spellings of the SAME address that the crate can parse elsewhere (Address::from_hex) must not be accepted as
